@@ -831,6 +831,9 @@ def run(rep: Report, prog: Program, tier: str) -> None:
                 else:
                     obj.transport = v
                 return None
+            if a in ("_get_mline_index", "_get_mid") and not call.args:
+                obj = ev.ev(call.func.value)
+                return getattr(obj, "mline_index" if a == "_get_mline_index" else "mid", None)
             if a == "stop" and not call.args:
                 stopped.append(ev.ev(call.func.value))
                 return None
@@ -876,6 +879,13 @@ def run(rep: Report, prog: Program, tier: str) -> None:
         offer_cases.append(("an answer sets the current direction", mine.currentDirection, "sendrecv"))
         _run_section(me2, "offer", "video", "1", "sendonly")
         offer_cases.append(("offering side swapped: remote offer for a transceiver that already has its mid", mine._offerDirection, "recvonly"))
+        # a transceiver that got a tentative m-line index from a createOffer() that was never applied, then matched to a remote section elsewhere
+        tent = _mk_transceiver("audio", None, "tentative")
+        tent.mline_index = 1
+        me3 = _pc([_mk_transceiver("video", None, "video-first"), tent])
+        getattr(me3, "__transceivers")[0].mline_index = 0
+        _run_section(me3, "offer", "audio", "a0", "sendrecv", index=0)
+        offer_cases.append(("a tentative m-line index is replaced by the index of the remote section the transceiver is matched to", (tent.mid, tent.mline_index), ("a0", 0)))
     except Raised as ex:
         rep.fail(mk_finding(prog, PROP, "C03-OFFERDIR", set_remote, getattr(ex, "node", None), f"the per-section statement raises {ex.name}", construct=f"section raises {ex.name}"))
     except Unknown as ex:
